@@ -474,3 +474,79 @@ func checkGrammar(b []byte) (grammarInfo, error) {
 	}
 	return gi, nil
 }
+
+// fileTextWith: a File of type ft holding exactly the given message texts in one container slot.
+func fileTextWith(ft byte, slot int, msgs []string) string {
+	c, ok := containerOf(ft)
+	if !ok || slot >= len(c.Slots) {
+		return ""
+	}
+	fid := invalidVals(0)
+	fid[0] = "u" + strconv.Itoa(int(ft))
+	parts := []string{"H14/32/2115/0/2e464954/0", "C0", "I0:" + strings.Join(fid, ","), "R-", "Z-"}
+	slots := make([]string, len(c.Slots))
+	for i, s := range c.Slots {
+		switch {
+		case i == slot && s.Many:
+			slots[i] = "[" + strings.Join(msgs, "|") + "]"
+		case i == slot && len(msgs) > 0:
+			slots[i] = msgs[0]
+		case s.Many:
+			slots[i] = "[]"
+		default:
+			slots[i] = "-"
+		}
+	}
+	parts = append(parts, "K"+c.Name+"{"+strings.Join(slots, "~")+"}")
+	return strings.Join(parts, ";")
+}
+
+// twinEncodeCalls: for message types with many struct fields, sets of Encode calls on Files that
+// hold one message each and differ in exactly one late struct field (the base has only early fields
+// set). Any per-process memo of encoder work keyed by less than the whole message shows up when the
+// members of a set are encoded one after another.
+func twinEncodeCalls(r *rng, perType int) [][]string {
+	var sets [][]string
+	for _, ft := range hostedFileTypes() {
+		c, ok := containerOf(ft)
+		if !ok {
+			continue
+		}
+		for si, s := range c.Slots {
+			fm, st, ok := msgLayout(s.Msg)
+			if !ok || st.NumField() < 20 {
+				continue
+			}
+			for rep := 0; rep < perType; rep++ {
+				base := invalidVals(s.Msg)
+				k := fileKnobs{inDomain: true, fieldPct: 30}
+				for i := 0; i < 12 && i < st.NumField(); i++ {
+					if pf, ok := fieldForSindex(fm, i); ok && r.chance(40) && st.Field(i).Type.Kind() != reflect.Slice {
+						base[i] = randFieldText(r, st.Field(i).Type, pf, k)
+					}
+				}
+				set := []string{fmt.Sprintf("enc %d %s", rep%2, fileTextWith(ft, si, []string{strconv.Itoa(s.Msg) + ":" + strings.Join(base, ",")}))}
+				n := st.NumField()
+				for _, j := range []int{16, 31, 32, 33, 47, 63, 64, 65, 66, 70, 80, 90, n - 2, n - 1} {
+					if j < 12 || j >= n {
+						continue
+					}
+					pf, ok := fieldForSindex(fm, j)
+					if !ok || st.Field(j).Type.Kind() == reflect.Slice {
+						continue
+					}
+					tw := append([]string{}, base...)
+					tw[j] = randFieldText(r, st.Field(j).Type, pf, k)
+					if tw[j] == base[j] {
+						continue
+					}
+					set = append(set, fmt.Sprintf("enc %d %s", rep%2, fileTextWith(ft, si, []string{strconv.Itoa(s.Msg) + ":" + strings.Join(tw, ",")})))
+				}
+				if len(set) > 1 {
+					sets = append(sets, set)
+				}
+			}
+		}
+	}
+	return sets
+}
